@@ -543,11 +543,13 @@ def targeted_cases(rng, n):
         sc.op("chm_close", "h0")
         out.append(Case("gen:chm-short-reset-table", "chm", sc, True, exp))
     # (10) a CHM cut in the middle of a directory chunk: the same name looked up twice on one fast_open()ed header (a failed chunk read must leave nothing behind)
-    for i in range(max(2, n // 3)):
+    #      (own generator state: every cut position x with / without index, the same on every run)
+    r10 = random.Random(10)
+    for i, (k, cutoff, widx) in enumerate([(1, 20, False), (1, 100, False), (1, 200, False), (2, 100, True), (2, 200, False), (3, 20, True)][:max(2, n)]):
         f0 = [(b"/f%03d.txt" % j, b"x" * (j % 7)) for j in range(60)]
-        chm, exp = chmfmt.build(f0, [], rng, chunk_size=256, density=rng.choice([0, 2]), with_index=(i % 2 == 1))
-        dirstart = 0x38 + 0x28 + 0x18 + 0x54; k = 1 + i % 3
-        cut = chm[:dirstart + k * 256 + rng.choice([20, 100, 200])]
+        chm, exp = chmfmt.build(f0, [], r10, chunk_size=256, density=[0, 2][i % 2], with_index=widx)
+        dirstart = 0x38 + 0x28 + 0x18 + 0x54
+        cut = chm[:dirstart + k * 256 + cutoff]
         sc = scenario.Scn().file("in0.chm", cut).op("chm_new").op("chm_fast_open", "h0", "in0.chm")
         for nm in (b"/f%03d.txt" % (10 * k + 8), b"/f%03d.txt" % (10 * k + 8), b"/f059.txt", b"/f059.txt", b"/f000.txt", b"/f%03d.txt" % (10 * k + 9)): sc.op("chm_find", "h0", nm.hex())
         sc.op("chm_close", "h0")
